@@ -663,3 +663,18 @@ class LazyEntries:
 
     def py_contains(self, I, key):
         return self.base.index_of_key(key) is not None or key in self.before
+
+
+class SymIntSet:
+    """set(L) for a symbolic-length list L of integers: only membership is observable; member(i) is an uninterpreted predicate
+    (true exactly for the elements of L: the defining axiom is instantiated by the proof scripts where they need it)"""
+
+    def __init__(self, arr):
+        self.arr = arr
+        self.member = z3.Function(ctx().fresh("in_set"), z3.IntSort(), z3.BoolSort())
+
+    def py_contains(self, I, item):
+        return mkbool(self.member(zi(iterm(item))))
+
+    def py_len(self, I):
+        raise Unsupported("len of a set built from a symbolic-length list")
